@@ -8,4 +8,4 @@ for f in *.tla; do
 done
 rm -f /tmp/sany_$$.log
 cd /verif
-/venv/bin/python -c "import harness.common, harness.tlc, harness.models, harness.lifecycle; print('harness ok')"
+/venv/bin/python -c "import harness.common, harness.tlc, harness.models, harness.lifecycle, harness.worlds, harness.crossworld, harness.layouts, harness.unseen; print('harness ok')"
